@@ -202,7 +202,7 @@ Section Explicit.
   Theorem explicit_projection i : wf E i -> NoDup (map fst i) -> lwf E i ->
     project (F i) = project (X i).
   Proof.
-    intros [W _] ND LW. unfold project, node_keys.
+    intros W ND LW. unfold project, node_keys.
     rewrite (usort_keys_ext _ _ (nodes_agree i)). apply map_ext. intros z.
     pose proof (values_agree i W ND LW z) as V. unfold pr in V. unfold project1.
     injection V as V1 V2. cbv zeta. now rewrite V2, V1.
